@@ -26,13 +26,67 @@ theorem nest_outermost (s : Cache) (hd : 0 < s.depth) :
     s.tbegin = { s with depth := s.depth + 1 } ∧
     (1 < s.depth → s.tend = { s with depth := s.depth - 1 }) ∧
     (∀ n, n < s.depth → s.traise n = { s with depth := s.depth - n }) := by
-  sorry
+  refine ⟨?_, ?_, ?_⟩
+  · unfold tbegin
+    have : (s.depth == 0) = false := by simp; omega
+    simp [this]
+  · intro h1
+    unfold tend
+    have : (s.depth == 1) = false := by simp; omega
+    simp [this]
+  · intro n hn
+    exact traise_inner s n hn
 
 /-- the outermost block begins the transaction and remembers the state to restore -/
 theorem outermost_begins (s : Cache) (hd : s.depth = 0) :
     s.tbegin.depth = 1 ∧ s.tbegin.snap = some s.takeSnap ∧ s.tbegin.rows = s.rows ∧
     s.tbegin.files = s.files ∧ s.tbegin.trace = s.trace ++ [.begin] := by
-  sorry
+  unfold tbegin
+  rw [if_pos (by simp [hd])]
+  exact ⟨rfl, rfl, rfl, rfl, rfl⟩
+
+/-- every call other than a block bracket extends the block state -/
+theorem step_blk {a s : Cache} (h : Blk a s) (op : Op) (hf : op.flat = true) : Blk a (s.step op).1 := by
+  cases op with
+  | set E now k v ttl read tag => exact set_blk h E now k v ttl read tag
+  | add E now k v ttl read tag => exact add_blk h E now k v ttl read tag
+  | touch E now k ttl => exact touch_blk h E now k ttl
+  | incr E now k delta dflt => exact incr_blk h E now k delta dflt
+  | get E now k read et tg => exact get_blk h E now k read et tg
+  | contains E now k => exact contains_blk h E now k
+  | pop E now k et tg => exact pop_blk h E now k et tg
+  | delitem E now k => exact delitem_blk h E now k
+  | delete E now k => exact delete_blk h E now k
+  | push E now v pfx back ttl read tag => exact push_blk h E now v pfx back ttl read tag
+  | pull E now pfx front et tg => exact pullLoop_blk E now pfx front et tg _ h
+  | peek E now pfx front et tg => exact peekLoop_blk E now pfx front et tg _ h
+  | peekitem E now last et tg => exact peekitemLoop_blk E now last et tg _ h
+  | clear =>
+    show Blk a (clearLoop (s.rows.length + 1) s 0 0).1
+    exact clearLoop_blk _ _ _ h
+  | evict tag =>
+    show Blk a (evictLoop tag (s.rows.length + 1) s 0 0).1
+    exact evictLoop_blk tag _ _ _ h
+  | expire now =>
+    show Blk a (expireLoop now (s.rows.length + 1) s none 0).1
+    exact expireLoop_blk now _ _ _ h
+  | cull now => exact cull_blk h now
+  | iter E asc => exact iter_blk h E asc
+  | iterkeys E rev => exact iterkeys_blk h E rev
+  | len => exact h.logSql _
+  | stats enable reset => exact stats_blk h enable reset
+  | tbegin => cases hf
+  | tend => cases hf
+  | traise n => cases hf
+  | observe env => exact h.same rfl rfl rfl rfl rfl
+
+theorem run_blk {a s : Cache} (h : Blk a s) (ops : List Op) (hflat : ∀ op ∈ ops, op.flat = true) :
+    Blk a (s.run ops) := by
+  induction ops generalizing s with
+  | nil => exact h
+  | cons op ops ih =>
+    exact ih (step_blk h op (hflat op (List.mem_cons_self ..)))
+      (fun o ho => hflat o (List.mem_cons_of_mem _ ho))
 
 /-- inside a block every call leaves the nesting depth and the snapshot alone and removes no
 file that existed before it (removals are deferred to the outermost COMMIT) -/
@@ -40,7 +94,8 @@ theorem step_in_block (s : Cache) (op : Op) (hd : 0 < s.depth) (hf : op.flat = t
     (s.step op).1.depth = s.depth ∧ (s.step op).1.snap = s.snap ∧
     (∀ p ∈ s.files, p ∈ (s.step op).1.files) ∧ s.nfile ≤ (s.step op).1.nfile ∧
     (∀ f ∈ (s.step op).1.created, f ∈ s.created ∨ s.nfile ≤ f) := by
-  sorry
+  have h := step_blk (Blk.refl hd) op hf
+  exact ⟨h.depth, h.snap, h.files, h.nfile, h.created⟩
 
 /-- `abort_restores`: a block that raises — after ANY sequence of calls, at any point — leaves
 rows (keys, values, expiry, tags, store/access metadata), Settings counters and statistics
@@ -52,12 +107,54 @@ theorem abort_restores (s : Cache) (ops : List Op) (hd : s.depth = 0)
     s'.rows = s.rows ∧ s'.count = s.count ∧ s'.size = s.size ∧ s'.hits = s.hits ∧
     s'.misses = s.misses ∧ (∀ p ∈ s.files, p ∈ s'.files) ∧
     s'.depth = 0 ∧ s'.snap = none ∧ s'.pending = [] ∧ s'.created = [] := by
-  sorry
+  have h0 : Blk s.tbegin s.tbegin := Blk.refl (by rw [(outermost_begins s hd).1]; exact Nat.one_pos)
+  have h := run_blk h0 ops hflat
+  have hb : s.tbegin = { (s.log .begin) with depth := 1, snap := some s.takeSnap, pending := [], created := [] } := by
+    unfold tbegin
+    rw [if_pos (by simp [hd])]
+  have hdep : (s.tbegin.run ops).depth = 1 := by rw [h.depth, hb]
+  have hsnap : (s.tbegin.run ops).snap = some s.takeSnap := by rw [h.snap, hb]
+  have hfiles : ∀ p ∈ s.files, p ∈ (s.tbegin.run ops).files := by
+    intro p hp; apply h.files; rw [hb]; exact hp
+  have hcr : ∀ f ∈ (s.tbegin.run ops).created, s.nfile ≤ f := by
+    intro f hf
+    rcases h.created f hf with h1 | h1
+    · rw [hb] at h1; cases h1
+    · rw [hb] at h1; exact h1
+  intro s'
+  have hs' : s' = _ := traise_outer (s.tbegin.run ops) 1 s.takeSnap (by omega) (by omega) hsnap
+  generalize s.tbegin.run ops = t at *
+  rw [hs']
+  refine ⟨?_, ?_, ?_, ?_, ?_, ?_, ?_, ?_, rfl, rfl⟩
+  · show (Cache.fremoveAll _ _).rows = s.rows
+    rw [fremoveAll_rows]; rfl
+  · show (Cache.fremoveAll _ _).count = s.count
+    rw [(fremoveAll_keep _ _).2.1]; rfl
+  · show (Cache.fremoveAll _ _).size = s.size
+    rw [(fremoveAll_keep _ _).2.2.1]; rfl
+  · show (Cache.fremoveAll _ _).hits = s.hits
+    rw [(fremoveAll_stats _ _).1]; rfl
+  · show (Cache.fremoveAll _ _).misses = s.misses
+    rw [(fremoveAll_stats _ _).2]; rfl
+  · intro p hp
+    refine mem_fremoveAll (s := { ((t.restore s.takeSnap).log .rollback) with depth := 0, snap := none })
+      (hfiles p hp) ?_
+    intro hm
+    obtain ⟨f, hf, hfe⟩ := List.mem_map.1 hm
+    simp only [Option.some.injEq] at hfe
+    have h1 := hcr f hf
+    have h2 := hfresh p hp
+    omega
+  · show (Cache.fremoveAll _ _).depth = 0
+    rw [fremoveAll_depth]
+  · show (Cache.fremoveAll _ _).snap = none
+    rw [fremoveAll_snap]
 
 /-- an exception that leaves only inner blocks (caught before the outermost) rolls nothing back -/
 theorem inner_raise_keeps (s : Cache) (n : Nat) (hn : n < s.depth) :
     (s.traise n).rows = s.rows ∧ (s.traise n).files = s.files ∧ (s.traise n).snap = s.snap := by
-  sorry
+  rw [traise_inner s n hn]
+  exact ⟨rfl, rfl, rfl⟩
 
 /-- `commit_atomic` (sequential face): leaving the outermost block normally publishes with one
 COMMIT and only then removes the files the block replaced or popped -/
@@ -65,7 +162,18 @@ theorem outermost_commits (s : Cache) (hd : s.depth = 1) :
     s.tend.depth = 0 ∧ s.tend.snap = none ∧ s.tend.rows = s.rows ∧ s.tend.pending = [] ∧
     (∀ p ∈ s.tend.files, p ∈ s.files) ∧
     (∀ p ∈ s.files, some p.1 ∉ s.pending → p ∈ s.tend.files) := by
-  sorry
+  rw [tend_one s hd]
+  refine ⟨?_, ?_, ?_, rfl, ?_, ?_⟩
+  · show (Cache.fremoveAll _ _).depth = 0
+    rw [fremoveAll_depth]
+  · show (Cache.fremoveAll _ _).snap = none
+    rw [fremoveAll_snap]
+  · show (Cache.fremoveAll _ _).rows = s.rows
+    rw [fremoveAll_rows]; rfl
+  · intro p hp
+    exact mem_of_fremoveAll (s := { (s.log .commit) with depth := 0, snap := none }) hp
+  · intro p hp hn
+    exact mem_fremoveAll (s := { (s.log .commit) with depth := 0, snap := none }) hp hn
 
 /-- non-vacuity: replace a file-backed value and pop another inside a block, then abort -/
 def exE6 : Externals :=
